@@ -366,7 +366,21 @@ static void setVec(Outcome& o, const VectorDouble& v) { o.haveVec = true; o.vec 
 
 // the routes of an operation in a storage; the first one is the primary route (its result becomes the
 // register); the others are evaluated on clones of the registers and only compared
-static std::vector<Route> routesOf(const OpRec& o, int p, const Regs& pre)
+// storage kinds for the mixed-storage routes: 0 dense (MatrixRectangular), 1 sparse Eigen, 2 sparse cs
+static int ownKind(int p) { return p == SPE ? 1 : (p == SPC ? 2 : 0); }
+static int otherKind(int p) { return isSparseProf(p) ? 0 : 1; }
+static const char* kindName(int k) { return k == 0 ? "dense" : (k == 1 ? "sparse(Eigen)" : "sparse(cs)"); }
+static AMatrix* newEmptyKind(int k, int r, int c)
+{
+  if (k == 0) return new MatrixRectangular(r, c);
+  return new MatrixSparse(r, c, k == 1 ? 1 : 0);
+}
+static AMatrix* convertKind(const AMatrix* a, int k)
+{
+  return buildFrom(k == 0 ? RECT : (k == 1 ? SPE : SPC), a->getNRows(), a->getNCols(), [a](int i, int j) { return a->getValue(i, j); });
+}
+
+static std::vector<Route> routesOf(const OpRec& o, int p, const Regs& pre, bool mixed = false)
 {
   std::vector<Route> R;
   const std::string& op = o.op;
@@ -789,6 +803,86 @@ static std::vector<Route> routesOf(const OpRec& o, int p, const Regs& pre)
     add("getDiagonal", [=](Regs& g, Outcome&) { g.v = g.A->getDiagonal(sh); });
     if (sp && sh == 0)
       add("extractDiag", [=](Regs& g, Outcome&) { g.v = asSparse(g.A)->extractDiag(1); });
+  }
+  // mixed storages: the destination and the operands are held in different storages, which sends the call to the
+  // generic (element by element) implementations of the AMatrix base class.  Every combination the API accepts,
+  // except a cs destination (it cannot receive new non-zero terms in place).
+  if (mixed)
+  {
+    int kinds[2] = {ownKind(p), otherKind(p)};
+    auto label = [](const std::string& what, int dk, int k1, int k2) {
+      std::string s = "mixed " + what + " [dest=" + kindName(dk) + ", " + kindName(k1);
+      if (k2 >= 0) s += std::string(", ") + kindName(k2);
+      return s + "]"; };
+    if (op == "ProdMatMat")
+    {
+      bool ta = o.i == 1, tb = o.j == 1;
+      int nr = ta ? c : r;
+      int nc = tb ? pre.B->getNRows() : pre.B->getNCols();
+      for (int dk : kinds) for (int xk : kinds) for (int yk : kinds)
+      {
+        if (dk == 2 || (dk == kinds[0] && xk == kinds[0] && yk == kinds[0])) continue;
+        add(label("prodMatMatInPlace", dk, xk, yk), [=](Regs& g, Outcome&) {
+          AMatrix* x = convertKind(g.A, xk); AMatrix* y = convertKind(g.B, yk);
+          AMatrix* res = newEmptyKind(dk, nr, nc);
+          res->prodMatMatInPlace(x, y, ta, tb);
+          delete x; delete y; delete g.A; g.A = res; });
+      }
+    }
+    else if (op == "ProdNormMatMat")
+    {
+      bool t = o.i == 1;
+      int n = t ? c : r;
+      for (int dk : kinds) for (int ak : kinds) for (int mk : kinds)
+      {
+        if (dk == 2 || (!sp && dk == kinds[0] && ak == kinds[0] && mk == kinds[0])) continue;
+        add(label("AMatrix::prodNormMatMatInPlace", dk, ak, mk), [=](Regs& g, Outcome&) {
+          AMatrix* a = convertKind(g.A, ak); AMatrix* m = convertKind(g.B, mk);
+          AMatrix* res = newEmptyKind(dk, n, n);
+          res->AMatrix::prodNormMatMatInPlace(a, m, t);
+          delete a; delete m; delete g.A; g.A = res; });
+      }
+    }
+    else if (op == "ProdNormMatVec" || op == "ProdNormMat")
+    {
+      bool t = o.i == 1;
+      int n = t ? c : r;
+      bool withV = op == "ProdNormMatVec";
+      for (int dk : kinds) for (int ak : kinds)
+      {
+        if (dk == 2 || (!sp && dk == kinds[0] && ak == kinds[0])) continue;
+        add(label("AMatrix::prodNormMatVecInPlace", dk, ak, -1), [=](Regs& g, Outcome&) {
+          AMatrix* a = convertKind(g.A, ak);
+          AMatrix* res = newEmptyKind(dk, n, n);
+          res->AMatrix::prodNormMatVecInPlace(*a, withV ? g.v : VectorDouble(), t);
+          delete a; delete g.A; g.A = res; });
+      }
+    }
+    else if (op == "AddMat")
+    {
+      double cx = o.k, cy = o.l;
+      for (int tk : kinds) for (int yk : kinds)
+      {
+        if (tk == 2 || (p != SPC && tk == kinds[0] && yk == kinds[0])) continue;
+        add(label("AMatrix::addMatInPlace", tk, yk, -1), [=](Regs& g, Outcome&) {
+          AMatrix* x = convertKind(g.A, tk); AMatrix* y = convertKind(g.B, yk);
+          x->AMatrix::addMatInPlace(*y, cx, cy);
+          delete y; delete g.A; g.A = x; });
+      }
+    }
+    else if (op == "LinComb")
+    {
+      double c1 = o.k, c2 = o.l;
+      for (int dk : kinds) for (int k1 : kinds) for (int k2 : kinds)
+      {
+        if (dk == 2 || (dk == kinds[0] && k1 == kinds[0] && k2 == kinds[0])) continue;
+        add(label("linearCombination", dk, k1, k2), [=](Regs& g, Outcome&) {
+          AMatrix* m1 = convertKind(g.A, k1); AMatrix* m2 = convertKind(g.B, k2);
+          AMatrix* res = newEmptyKind(dk, g.A->getNRows(), g.A->getNCols());
+          res->linearCombination(c1, m1, c2, m2);
+          delete m1; delete m2; delete g.A; g.A = res; });
+      }
+    }
   }
   return R;
 }
@@ -1214,6 +1308,7 @@ static bool evalRoute(const Route& rt, const Node& n, const Node& pn, int p, con
   Outcome out;
   runRoute(rt, *g, out);
   stat("routes_executed");
+  if (rt.name.rfind("mixed ", 0) == 0) stat("routes_mixed_storage");
   stat(std::string("op:") + o.op + ":" + PROFNAME[p]);
   std::string diff;
   Value observed;
@@ -1324,7 +1419,7 @@ static int evalIsolated(const Route& rt, const Node& n, const Node& pn, int p, c
 static Regs* step(int nodeIdx, const Node& n, const Node& pn, int p, const Regs& pre, std::vector<char>* okRoutes = nullptr)
 {
   const OpRec& o = n.h.back();
-  std::vector<Route> routes = routesOf(o, p, pre);
+  std::vector<Route> routes = routesOf(o, p, pre, n.h.size() == 1);
   Regs* result = nullptr;
   bool primaryOk = true;
   if (okRoutes) okRoutes->assign(routes.size(), 0);
@@ -1385,6 +1480,7 @@ static QVec kronV(const QVec& q, int n, ll factor)
 static ll ipow(ll n, int p) { ll r = 1; for (int i = 0; i < p; i++) r *= n; return r; }
 
 static int g_infl = 0;
+static std::vector<std::pair<int, int>> COMBOS;   // (threads, inflation size) pairs of the thread-independence pass
 // operations whose cost grows with the size (the ones Eigen / OpenMP may run in parallel): only those are inflated
 static bool heavyOp(const std::string& op)
 {
@@ -1394,12 +1490,13 @@ static bool heavyOp(const std::string& op)
   return H.count(op) > 0;
 }
 
-static void inflate(int nodeIdx, const Node& n, const Node& pn, int p, const std::vector<char>& okRoutes)
+static void inflate(int nodeIdx, const Node& n, const Node& pn, int p, const std::vector<char>& okRoutes, int combo)
 {
   const OpRec& o = n.h.back();
   char target = targetOf(o.op);
   for (int kind = 0; kind < 2; kind++)    // 0: J_n (all ones), 1: I_n
   {
+    int extra = 2 * combo + kind;
     int pw = kind == 0 ? n.kj : n.ki;
     if (pw < 0) continue;
     bool ones = kind == 0;
@@ -1413,23 +1510,28 @@ static void inflate(int nodeIdx, const Node& n, const Node& pn, int p, const std
     big.B = kronQ(n.B, N, ones, 1);
     big.v = kronV(n.v, N, target == 'v' ? f : 1);
     std::string variant = std::string(ones ? "kron J_" : "kron I_") + std::to_string(N) + " threads=" + std::to_string(g_threads);
-    if (!enter(nodeIdx, p, 0, 1, kind, o.op + "/build inflated operands")) continue;
+    if (!enter(nodeIdx, p, 0, 1, extra, o.op + "/build inflated operands")) continue;
     Regs pre;
     pre.A = build(p, bigPre.A); pre.B = build(p, bigPre.B); pre.v = buildVec(bigPre.v);
-    std::vector<Route> routes = routesOf(o, p, pre);
+    std::vector<Route> routes = routesOf(o, p, pre, true);
+    int maxdim = std::max(std::max(pre.A->getNRows(), pre.A->getNCols()), std::max(pre.B->getNRows(), pre.B->getNCols()));
     for (size_t k = 0; k < routes.size() && k < okRoutes.size(); k++)
     {
       if (!okRoutes[k]) continue;   // a route that is wrong on the small case is not inflated
       if (ISOLATE.count(o.op + "|" + PROFNAME[p] + "|" + routes[k].name)) continue;   // nor a route known to overrun
       if (NOINFLATE.count(o.op + "|" + PROFNAME[p] + "|" + routes[k].name)) continue;
-      // the generic element-by-element congruence products cost n^4: not inflated
-      if (routes[k].name.find("AMatrix::prodNorm") != std::string::npos || routes[k].name.find("normMatrix") != std::string::npos) continue;
-      if (!enter(nodeIdx, p, (int)k, 1, kind, o.op + "/" + routes[k].name)) continue;
+      // the generic element-by-element implementations cost n^3 / n^4 virtual calls: inflated up to a moderate size only
+      bool generic = routes[k].name.rfind("mixed ", 0) == 0 || routes[k].name.find("AMatrix::prodNorm") != std::string::npos ||
+                     routes[k].name.find("normMatrix") != std::string::npos;
+      if (generic && maxdim > 40) continue;
+      if (!enter(nodeIdx, p, (int)k, 1, extra, o.op + "/" + routes[k].name)) continue;
       Regs* g = pre.clone();
       Outcome out;
       runRoute(routes[k], *g, out);
       stat("inflated_executed");
+      if (generic) stat("inflated_generic_routes");
       stat(std::string("infl:") + o.op + ":" + PROFNAME[p]);
+      stat(std::string("inflthreads:") + std::to_string(g_threads) + ":" + std::to_string(N));
       std::string diff;
       if (out.crashed) diff = "crash";
       if (out.exception.empty() && !out.refused && !out.crashed)
@@ -1473,7 +1575,19 @@ static void dfs(int nodeIdx, int p, const Regs& regs, bool inflonly)
     std::vector<char> okRoutes;
     Regs* g = step(ci, c, n, p, regs, &okRoutes);
     stat("steps");
-    if (g_infl > 0 && c.h.size() == 1 && (c.kj >= 0 || c.ki >= 0) && heavyOp(c.h.back().op)) inflate(ci, c, n, p, okRoutes);
+    if (!COMBOS.empty() && c.h.size() == 1 && (c.kj >= 0 || c.ki >= 0) && heavyOp(c.h.back().op))
+    {
+      int baseThreads = g_threads;
+      for (size_t q = 0; q < COMBOS.size(); q++)
+      {
+        g_threads = COMBOS[q].first;
+        g_infl = COMBOS[q].second;
+        if (g_threads > 0) setMultiThread(g_threads);   // taken into account by every matrix allocated from now on
+        inflate(ci, c, n, p, okRoutes, (int)q);
+      }
+      g_threads = baseThreads;
+      if (baseThreads > 0) setMultiThread(baseThreads);
+    }
     if (g == nullptr) continue;
     // a state whose reading routes disagree is not used further (one root cause, one report)
     bool consistent = inflonly || checkReaders(*g, c, &n, p, ci);
@@ -1618,7 +1732,12 @@ static int runContained(const std::vector<int>& roots, const std::string& outPat
       if (o.op == "ProdMatMat") rec["transposeB"] = Value(o.j == 1);
     }
     rec["h"] = histJson(n);
-    if (MARK->phase == 1) rec["variant"] = Value(std::string(MARK->extra == 0 ? "kron J_" : "kron I_") + std::to_string(g_infl) + " threads=" + std::to_string(g_threads));
+    if (MARK->phase == 1)
+    {
+      size_t q = (size_t)(MARK->extra / 2);
+      int th = q < COMBOS.size() ? COMBOS[q].first : 0, nn = q < COMBOS.size() ? COMBOS[q].second : 0;
+      rec["variant"] = Value(std::string(MARK->extra % 2 == 0 ? "kron J_" : "kron I_") + std::to_string(nn) + " threads=" + std::to_string(th));
+    }
     if (n.parent >= 0)
     {
       const Node& pn = nodeOf(n.parent);
@@ -1665,6 +1784,17 @@ int main(int argc, char** argv)
     auto opts = parseOpts(argc, argv, 4);
     int threads = opts.count("threads") ? atoi(opts["threads"].c_str()) : 0;
     g_infl = opts.count("infl") ? atoi(opts["infl"].c_str()) : 0;
+    if (g_infl > 0) COMBOS.push_back({threads, g_infl});
+    if (opts.count("combos"))   // combos=threads:size,threads:size,...
+    {
+      std::stringstream ss(opts["combos"]);
+      std::string item;
+      while (std::getline(ss, item, ','))
+      {
+        size_t k = item.find(':');
+        if (k != std::string::npos) COMBOS.push_back({atoi(item.substr(0, k).c_str()), atoi(item.substr(k + 1).c_str())});
+      }
+    }
     bool inflonly = opts.count("inflonly") && opts["inflonly"] == "1";
     if (opts.count("isolate"))
     {
